@@ -24,7 +24,8 @@ const (
 
 // targetPanic is a Go-level panic of the interpreted program.
 type targetPanic struct {
-	v value
+	v     value
+	where *string
 }
 
 func (p targetPanic) String() string { return toString(p.v) }
@@ -55,6 +56,7 @@ type frame struct {
 	panicking        bool
 	panic            any
 	phitemps         []value
+	cur              ssa.Instruction
 	symIfCount       map[*ssa.BasicBlock]int
 }
 
@@ -110,7 +112,7 @@ func (in *Interp) unsupported(format string, a ...any) {
 }
 
 func tpanic(format string, a ...any) {
-	panic(targetPanic{fmt.Sprintf("runtime error: "+format, a...)})
+	panic(targetPanic{v: fmt.Sprintf("runtime error: "+format, a...)})
 }
 
 func derefPtr(v value, what string) *value {
@@ -190,7 +192,7 @@ func (in *Interp) visitInstr(fr *frame, instr ssa.Instruction) continuation {
 		fr.runDefers()
 
 	case *ssa.Panic:
-		panic(targetPanic{fr.get(instr.X)})
+		panic(targetPanic{v: fr.get(instr.X)})
 
 	case *ssa.Send:
 		in.chanSend(fr.g, fr.get(instr.Chan), fr.get(instr.X))
@@ -328,7 +330,7 @@ func (in *Interp) visitInstr(fr *frame, instr ssa.Instruction) continuation {
 			panic(fmt.Sprintf("illegal map type: %T", fr.get(instr.Map)))
 		}
 		if m == nil {
-			panic(targetPanic{"assignment to entry in nil map"})
+			panic(targetPanic{v: "assignment to entry in nil map"})
 		}
 		in.noteMapAccess(fr, m, true)
 		in.mapUpdate(m, fr.get(instr.Key), fr.get(instr.Value))
@@ -490,6 +492,13 @@ func (in *Interp) runFrame(fr *frame) {
 		case pathAbort:
 			panic(r)
 		case targetPanic:
+			if r.where == nil {
+				w := fr.fn.String()
+				if fr.cur != nil {
+					w += " at " + fr.in.prog.Fset.Position(fr.cur.Pos()).String()
+				}
+				r.where = &w
+			}
 			fr.panicking = true
 			fr.panic = r
 		default:
@@ -503,6 +512,7 @@ func (in *Interp) runFrame(fr *frame) {
 	for {
 		nonPhis := executePhis(fr)
 		for _, instr := range nonPhis {
+			fr.cur = instr
 			if in.visitInstr(fr, instr) == kReturn {
 				return
 			}
